@@ -60,7 +60,10 @@ import (
 	"github.com/sourcegraph/zoekt/internal/verifkit/kit"
 )
 
-// c31SitePct: share of the cases that run the Server's call sites.
+// c31SitePct: share (%) of the cases that run the Server's call sites. A site
+// case costs one process start per command (tens of ms on a busy machine), a
+// sched case a fraction of a millisecond. VERIF_C31_SITEPCT overrides the share
+// (registry "env", e.g. for a tier that should spend more on this part).
 const c31SitePct = 5
 
 func c31SitePctEff() int {
@@ -416,12 +419,7 @@ type c31Site struct {
 }
 
 func c31OpenSite(h *c31Harness, c c31Case) (*c31Site, error) {
-	t0 := time.Now()
 	fx := c31Fixtures1()
-	if os.Getenv("VERIF_C31_DEBUG") == "time" {
-		fmt.Fprintf(os.Stderr, "C31DBG fixtures %v\n", time.Since(t0))
-		defer func() { fmt.Fprintf(os.Stderr, "C31DBG open %v\n", time.Since(t0)) }()
-	}
 	if fx.err != nil {
 		return nil, fx.err
 	}
@@ -511,6 +509,13 @@ func (st *c31Site) close() {
 
 // call runs one global operation through the Server's own call site.
 func (st *c31Site) call(op c31Op) {
+	defer func() {
+		if r := recover(); r != nil {
+			st.h.mu.Lock()
+			st.h.fail("panic", "%s panicked: %v", c31OpString(op), r)
+			st.h.mu.Unlock()
+		}
+	}()
 	switch op.Site {
 	case "merge":
 		st.srv.doMerge()
@@ -623,10 +628,7 @@ type c31GState struct {
 // sync.(*RWMutex).Lock/RLock is indexMutex.Global/With.
 var c31InIndexMutex = regexp.MustCompile(`sync\.\(\*RWMutex\)\.R?Lock\([^\n]*\n[^\n]*\n[^\n]*\(\*indexMutex\)\.(Global|With)\(`)
 
-var c31Dumps int
-
 func c31DumpSite() map[int64]c31GState {
-	c31Dumps++
 	buf := make([]byte, 1<<17)
 	for {
 		n := runtime.Stack(buf, true)
@@ -635,10 +637,6 @@ func c31DumpSite() map[int64]c31GState {
 			break
 		}
 		buf = make([]byte, 2*len(buf))
-	}
-	if os.Getenv("VERIF_C31_DEBUG") == "dump" {
-		os.Stderr.Write(buf)
-		os.Stderr.WriteString("\n=====\n")
 	}
 	out := map[int64]c31GState{}
 	for _, blk := range bytes.Split(buf, []byte("\n\n")) {
@@ -661,13 +659,6 @@ func c31DumpSite() map[int64]c31GState {
 func (h *c31Harness) quiesceSite() (running []c31Rel, parked []*c31Worker, err error) {
 	deadline := time.Now().Add(30 * time.Second)
 	pause := 100 * time.Microsecond
-	if os.Getenv("VERIF_C31_DEBUG") == "time" {
-		t0 := time.Now()
-		dumps0 := c31Dumps
-		defer func() {
-			fmt.Fprintf(os.Stderr, "C31DBG quiesce %v dumps=%d running=%d parked=%d\n", time.Since(t0), c31Dumps-dumps0, len(running), len(parked))
-		}()
-	}
 	for spin := 0; ; spin++ {
 		running, parked = running[:0], parked[:0]
 		var undecided []*c31Worker
